@@ -57,13 +57,13 @@ def _pre_k1(value: str, va: str, a_set: bool, x_set: bool) -> bool:
     if not (len(value) == case['len'] and _in_alphabet(value, K1_ALPHABET)
             and len(va) <= case['valen'] and _in_alphabet(va, K1_ALPHABET)):
         return False
+    chars = case.get('chars')
+    if chars is not None:
+        for i, allowed in enumerate(chars):
+            if value[i] not in allowed:
+                return False
     prefix = case.get('prefix')
-    if prefix is None:
-        return True
-    for p in prefix:
-        if value.startswith(p):
-            return True
-    return False
+    return prefix is None or value.startswith(prefix)
 
 
 def k1_expand(value: str, va: str, a_set: bool, x_set: bool) -> bool:
@@ -376,20 +376,36 @@ def expected_observations(history, initial_environ, act_dir: str, ints=None, bug
     return out
 
 
-def _normalized(observations):
-    """The order in which `env` without -of evaluates its value for the two sets is not specified:
-    adjacent `probe-value` observations are put into a canonical order."""
+def _runs(observations):
+    """Splits into runs: every observation is a run of its own, except that adjacent `probe-value`
+    observations form one run."""
     out = []
-    run_ = []
     for o in observations:
-        if o[0] == 'probe-value':
-            run_.append(o)
-            continue
-        out.extend(sorted(run_, key=lambda x: repr(sorted(x[1].items()))))
-        run_ = []
-        out.append(o)
-    out.extend(sorted(run_, key=lambda x: repr(sorted(x[1].items()))))
+        if o[0] == 'probe-value' and out and out[-1][0][0] == 'probe-value':
+            out[-1].append(o)
+        else:
+            out.append([o])
     return out
+
+
+def same_observations(got, want) -> bool:
+    """The order in which `env` without -of evaluates its value for the two sets is not specified: adjacent
+    `probe-value` observations (at most two) may come in either order.  Everything else in order."""
+    g, w = _runs(got), _runs(want)
+    if len(g) != len(w):
+        return False
+    for a, b in zip(g, w):
+        if len(a) != len(b):
+            return False
+        if len(a) == 1:
+            if a[0] != b[0]:
+                return False
+        elif len(a) == 2:
+            if not ((a[0] == b[0] and a[1] == b[1]) or (a[0] == b[1] and a[1] == b[0])):
+                return False
+        else:
+            return False
+    return True
 
 
 def _history_of(args, k: int):
@@ -453,7 +469,7 @@ def check_run(h, initial, run, ints=None, bug: int = 0) -> bool:
         return False
     want = expected_observations(h, initial, run.act_dir, ints, bug)
     got = [(_tag(c.tag), c.env, c.timeout, c.cwd) for c in run.calls]
-    return want is not None and _normalized(got) == _normalized(want)
+    return want is not None and same_observations(got, want)
 
 
 def k3_history(f0: int, p0: int, f1: int, p1: int, f2: int, p2: int) -> bool:
@@ -590,24 +606,24 @@ def obligations(tier: str) -> List[Ob]:
     lens = (0, 1, 2, 3, 4, 5) if tier == 'quick' else (0, 1, 2, 3, 4, 5, 6)
     for n in lens:
         if n < 5:
-            prefixes = [None]
+            parts = [None]
         elif n == 5:
-            prefixes = [('${',), ('$$', '$}', '$A', '$_', '$x'), ('{', '}'), ('A', '_', 'x')]
+            parts = [('$', '{'), ('$', '$}A_x'), ('{}',), ('A_x',)]
         else:
-            prefixes = [('${' + c,) for c in K1_ALPHABET] + [('$$', '$}', '$A', '$_', '$x')] + [(c,) for c in K1_ALPHABET[1:]]
-        for i, prefix in enumerate(prefixes):
-            obs.append(Ob(name='K1:expand:len%d%s' % (n, '' if prefix is None else ':part%d' % i), fn='k1_expand',
-                          case=dict(len=n, valen=2, prefix=prefix), kernel='K1',
+            parts = [('$', '{', c) for c in K1_ALPHABET] + [('$', '$}A_x')] + [(c,) for c in K1_ALPHABET[1:]]
+        for i, part in enumerate(parts):
+            obs.append(Ob(name='K1:expand:len%d%s' % (n, '' if part is None else ':part%d' % i), fn='k1_expand',
+                          case=dict(len=n, valen=2, chars=part), kernel='K1',
                           bound='every value of exactly %d characters over {$ { } A _ x}%s; variable A unset or any text of <= 2 '
                                 'characters over the same alphabet, x unset or "X", Ax = "L"' % (
-                                    n, '' if prefix is None else ' that starts with one of %s' % (list(prefix),)),
+                                    n, '' if part is None else ' whose first characters are in %s' % ' '.join('{%s}' % ' '.join(c) for c in part)),
                           timeout=900, real=REAL_K1, entry='_expand_vars (reached from `env NAME = VALUE`, see K2 / K3)'))
     for n in ((6,) if tier == 'quick' else (6, 7)):
-        obs.append(Ob(name='K1:expand:ref+tail:len%d' % n, fn='k1_expand', case=dict(len=n, valen=2, prefix=('${A}',)), kernel='K1',
+        obs.append(Ob(name='K1:expand:ref+tail:len%d' % n, fn='k1_expand', case=dict(len=n, valen=2, prefix='${A}'), kernel='K1',
                       bound='every value "${A}" + %d characters over {$ { } A _ x}; A unset or any text of <= 2 characters over the same '
                             'alphabet (a substituted text may complete a reference)' % (n - 4),
                       timeout=900, real=REAL_K1, entry='_expand_vars'))
-    obs.append(Ob(name='K1:seeded-oracle-error-2', fn='k1_expand', case=dict(len=6, valen=2, prefix=('${A}',), oracle_bug=2),
+    obs.append(Ob(name='K1:seeded-oracle-error-2', fn='k1_expand', case=dict(len=6, valen=2, prefix='${A}', oracle_bug=2),
                   kernel='K1', bound='seeded: the substituted text is expanded again', timeout=300, expect=ob.REFUTE))
     for bug, what in ((1, 'unknown name kept verbatim'), (3, '${} taken as a reference')):
         obs.append(Ob(name='K1:seeded-oracle-error-%d' % bug, fn='k1_expand', case=dict(len=4, valen=1, oracle_bug=bug),
